@@ -8,7 +8,7 @@ class Contract:
                  may_raise=(), modifies=(), on_raise="unchanged", inline=False, ghost_exit=(),
                  props=(), for_classes=None, effects="deterministic", kwargs=None,
                  labels=None, exc_ensures=(), pure=False, havoc_all=False, abstract=False,
-                 replay=None, note=None, ghost_entry=(), opaque_result=False):
+                 replay=None, note=None, ghost_entry=(), opaque_result=False, axiom_sets=()):
         self.qual = qual
         self.params = {k: S.parse_type(v) for k, v in (params or {}).items()}
         self.returns = S.parse_type(returns) if returns is not None else S.NONE
@@ -34,18 +34,24 @@ class Contract:
         self.note = note
         self.labels = labels or {}
         self.opaque_result = opaque_result
+        self.axiom_sets = list(axiom_sets)
 
 
 class LoopSpec:
-    def __init__(self, qual, loop, inv=(), modifies=(), decreases=None, labels=None):
+    def __init__(self, qual, loop, inv=(), modifies=(), decreases=None, labels=None,
+                 ghost_init=(), ghost_pre=(), post=()):
         self.qual = qual
         self.loop = loop
         self.inv = list(inv)
         self.modifies = list(modifies)
+        self.ghost_init = list(ghost_init)    # [(ghost local, expr)] before the loop
+        self.ghost_pre = list(ghost_pre)      # [(ghost local, expr)] at the start of each iteration
+        self.post = list(post)                # clauses that must hold when the loop exits normally
 
 
 class Lemma:
-    def __init__(self, name, src, params=None, props=(), self_class=None, note=None):
+    def __init__(self, name, src, params=None, props=(), self_class=None, note=None, axiom_sets=()):
+        self.axiom_sets = list(axiom_sets)
         self.name = name
         self.src = src
         self.params = {k: S.parse_type(v) for k, v in (params or {}).items()}
@@ -67,6 +73,7 @@ class Registry:
         self.axiom_notes = []
         self.class_ids = {}
         self.ground = []         # ground/data obligations: (name, props, callable)
+        self.axiom_sets = {}     # name -> [(formula, note)] : scoped dependency axioms
 
     # --- declaration API used by the sidecar files
     def contract(self, qual, **kw):
@@ -106,6 +113,15 @@ class Registry:
     def axiom(self, formula, note):
         self.axioms.append(formula)
         self.axiom_notes.append(note)
+
+    def scoped_axiom(self, set_name, formula, note):
+        self.axiom_sets.setdefault(set_name, []).append((formula, note))
+
+    def axioms_for(self, sets):
+        out = list(self.axioms)
+        for n in sets:
+            out += [f for f, _ in self.axiom_sets.get(n, [])]
+        return out
 
     def class_id(self, cls):
         if cls not in self.class_ids:
